@@ -36,6 +36,29 @@ def functional(tag, is_str=False, nargs=1):
     return E.BasicFunctionalExpression("run ecb_" + tag, E.BasicExpressionList([OpqExp("%s_a%d" % (tag, k)) for k in range(1, nargs + 1)]), is_str_expr=is_str)
 
 
+def direct_delivery():
+    """`target = F(args)` is exactly one call that stores into the target, for every kind of target, with and without LET (shared with C07: the emitted
+    statement is a RUN statement, not `LET RUN ...`)"""
+    def step7():
+        res = []
+        targets = {
+            "numeric scalar": (lambda: E.BasicVar("X"), False, "X"), "string scalar": (lambda: E.BasicVar("X$", True), True, "X$"),
+            "numeric array element": (lambda: E.BasicArrayRef(E.BasicVar("X"), E.BasicExpressionList([OpqExp("i")])), False, "arr_X(%s)" % opaque.mark("i", 0)),
+            "string array element": (lambda: E.BasicArrayRef(E.BasicVar("X$", True), E.BasicExpressionList([OpqExp("i")]), is_str_expr=True), True, "arr_X$(%s)" % opaque.mark("i", 0)),
+        }
+        for name, (mk, is_str, ttext) in targets.items():
+            for let in (False, True):
+                opaque.reset()
+                f = functional("f", is_str)
+                A = E.BasicAssignment(mk(), f, let_kw=let)
+                A.visit(V.BasicFunctionalExpressionPatcherVisitor())
+                text = norm(A.basic09_text(0))
+                want = "run ecb_f(%s, %s)" % (opaque.mark("f_a1", 0), ttext)
+                res.append(ob("patch/direct delivery into a %s%s" % (name, ", LET" if let else ""), text == want, want, text))
+        return res
+    return guarded("patch/direct delivery", step7)
+
+
 def patcher_steps():
     out = []
     P = V.BasicFunctionalExpressionPatcherVisitor
@@ -157,25 +180,7 @@ def patcher_steps():
         return res
     out += guarded("patch/assignment of a wrapped call", step6)
 
-    # 7. direct delivery for every kind of assignment target: `target = F(args)` is exactly one call that stores into the target
-    def step7():
-        res = []
-        targets = {
-            "numeric scalar": (lambda: E.BasicVar("X"), False, "X"), "string scalar": (lambda: E.BasicVar("X$", True), True, "X$"),
-            "numeric array element": (lambda: E.BasicArrayRef(E.BasicVar("X"), E.BasicExpressionList([OpqExp("i")])), False, "arr_X(%s)" % opaque.mark("i", 0)),
-            "string array element": (lambda: E.BasicArrayRef(E.BasicVar("X$", True), E.BasicExpressionList([OpqExp("i")]), is_str_expr=True), True, "arr_X$(%s)" % opaque.mark("i", 0)),
-        }
-        for name, (mk, is_str, ttext) in targets.items():
-            for let in (False, True):
-                opaque.reset()
-                f = functional("f", is_str)
-                A = E.BasicAssignment(mk(), f, let_kw=let)
-                A.visit(V.BasicFunctionalExpressionPatcherVisitor())
-                text = norm(A.basic09_text(0))
-                want = "run ecb_f(%s, %s)" % (opaque.mark("f_a1", 0), ttext)
-                res.append(ob("patch/direct delivery into a %s%s" % (name, ", LET" if let else ""), text == want, want, text))
-        return res
-    out += guarded("patch/direct delivery", step7)
+    out += direct_delivery()
     return out
 
 
